@@ -149,6 +149,10 @@ def run_body(name, test, measured):
   raise AssertionError('unknown behaviour code')
 
 
+class WouldHangForever(Exception):
+  """The code under test would block forever (unbounded wait on something that never ends)."""
+
+
 class _BodyNeverReturns(BaseException):
   """Internal: unwinds a body that models 'does not return before its deadline'."""
 
@@ -189,6 +193,9 @@ def make_phase_diagnoser(name):
 
 
 # ------------------------------------------------------ synchronous threads ---
+
+HANG_TEST = [lambda plug: False]     # harness hook: does this plug's tearDown hang? (may consult symbolic script values)
+
 
 def install_sync_threads():
   T = PE.PhaseExecutorThread
@@ -239,7 +246,7 @@ def install_sync_threads():
 
   def pstart(self):
     self._verif_alive = True
-    hang = getattr(self._plug, '_verif_hang', False)
+    hang = HANG_TEST[0](self._plug)
     if hang:
       SCRIPT.log.append(('teardown-hang', type(self._plug).__name__))
       return
@@ -250,10 +257,16 @@ def install_sync_threads():
 
   def pkill(self):
     self._killed.set()
-    self._verif_alive = False
+    # a tearDown blocked in a C-level call cannot be interrupted: the thread stays alive
+    if not HANG_TEST[0](self._plug):
+      self._verif_alive = False
+
+  def pjoin(self, timeout=None):
+    if timeout is None and getattr(self, '_verif_alive', False):
+      raise WouldHangForever('join() without timeout on a tear-down thread that never ends')
 
   P.start = pstart
-  P.join = lambda self, timeout=None: None
+  P.join = pjoin
   P.is_alive = lambda self: getattr(self, '_verif_alive', False)
   P.kill = pkill
 
